@@ -76,6 +76,31 @@ AllowedObs(cf, v, ob, w) ==
          [] cf.method = "exact" -> ob.i \in Equal(cf, v)
   /\ (cf.method = "exact" /\ ob.k = "masked") => Equal(cf, v) = {}
 
+\* ------------------------------------------------- datetime front-ends
+\* time2idx(t) is val2idx(date2num(t)): the value looked up for a datetime is
+\* its distance from the reference instant of the coordinate's units, in that
+\* unit.  Civil tuples are <<Y, M, D, h, m, s, utc offset in minutes>>; day
+\* numbers come from the day-number function dn (Calendar!DayNum of the
+\* coordinate's calendar), passed in so that this module stays calendar-free.
+CivSec(c) == c[4] * 3600 + c[5] * 60 + c[6] - c[7] * 60
+SecondsFrom(dn(_, _, _), ref, civ) ==
+  (dn(civ[1], civ[2], civ[3]) - dn(ref[1], ref[2], ref[3])) * 86400 + CivSec(civ) - CivSec(ref)
+UnitSecL(unit) == CASE unit = "days" -> 86400 [] unit = "hours" -> 3600
+                    [] unit = "minutes" -> 60 [] unit = "seconds" -> 1
+TimeExact(dn(_, _, _), unit, ref, civ) == SecondsFrom(dn, ref, civ) % UnitSecL(unit) = 0
+TimeVal(dn(_, _, _), unit, ref, civ) == SecondsFrom(dn, ref, civ) \div UnitSecL(unit)
+
+\* time2t(t, ttype): "nearest" = index of the closest time, never masked;
+\* "bounds" = the cell of getTimes(bounds=True) that contains t, masked outside;
+\* "bounds_close" = the same cell, clamped to the end cell outside.
+AllowedT2t(cf, ttype, v, ob) ==
+  /\ ob.k # "raised"
+  /\ CASE ttype = "nearest" -> ob.k = "idx" /\ ob.i \in Nearest(cf, v)
+       [] ttype = "bounds" -> IF InEdges(cf, v) THEN ob.k = "idx" /\ ob.i \in Cells(cf, v)
+                              ELSE ob.k = "masked"
+       [] ttype = "bounds_close" -> ob.k = "idx" /\
+                              (IF InEdges(cf, v) THEN ob.i \in Cells(cf, v) ELSE ob.i = EndIdx(cf, v))
+
 \* probes: each centre, each edge, one inside/outside every edge, far outside
 Probes(cf) ==
   {cf.c[i] : i \in 1..N(cf)} \cup {cf.e[i] : i \in 1..(N(cf) + 1)}
